@@ -109,6 +109,14 @@ def BridgeHandover (identityBytes : Nat) (pending afterAnnouncement : List UInt8
 
 instance (n : Nat) (p a : List UInt8) : Decidable (BridgeHandover n p a) := by unfold BridgeHandover; exact inferInstance
 
+/-- "without loss", before the bridge: a connector whose CONNECT has been accepted and whose identity is not complete yet
+    is not in command mode any more — the relay keeps every byte it sends (its unconsumed count grows by exactly the
+    number of bytes sent; they are handed to the partner when the bridge forms) and sends it nothing. -/
+def IdentityHeld (unconsumedBefore sent unconsumedAfter : Nat) (heardFromRelay : Bool) : Prop :=
+  unconsumedAfter = unconsumedBefore + sent ∧ heardFromRelay = false
+
+instance (a b c : Nat) (h : Bool) : Decidable (IdentityHeld a b c h) := by unfold IdentityHeld; exact inferInstance
+
 /-- "without loss": once a client's bridge exists the relay holds none of its bytes back (`unconsumed` = how many
     bytes of that client the relay still has buffered right after the step that established the bridge). -/
 def BridgeDrained (unconsumed : Nat) : Prop := unconsumed = 0
